@@ -40,6 +40,7 @@ class _File:
         self.fs, self.ino, self.path, self.mode = fs, ino, path, mode
         self.closed = False
         self._rpos = 0
+        self._wpos = len(fs.inodes[ino]) if "a" in mode else 0
         self.synced = len(fs.inodes[ino])
 
     # writing -----------------------------------------------------------
@@ -49,8 +50,15 @@ class _File:
         fs = self.fs
         fs._op(("write", self.path, len(s)), partial=(self, s))
         if not fs.frozen:
-            fs.inodes[self.ino] += s
+            self._put(s)
         return len(s)
+
+    def _put(self, s):
+        """write at the handle's position (a file opened without truncation is overwritten from the start,
+        whatever lies beyond the written bytes stays)"""
+        cur = self.fs.inodes[self.ino]
+        self.fs.inodes[self.ino] = cur[:self._wpos] + s + cur[self._wpos + len(s):]
+        self._wpos += len(s)
 
     def writelines(self, lines):
         for line in lines:
@@ -106,6 +114,7 @@ class CrashFS:
         self.crash_at = None  # (op index, mode)
         self.frozen = False
         self.handles = set()
+        self._fds = {}
 
     # directory view -----------------------------------------------------
     def _create(self, path, content=""):
@@ -135,9 +144,15 @@ class CrashFS:
         self.log.append(entry)
         if self.crash_at is not None and self.crash_at[0] == idx:
             mode = self.crash_at[1]
+            if mode == "interrupt":
+                # death by an asynchronous exception (SIGINT -> KeyboardInterrupt): unlike a kill, the
+                # clean-up code of the writer (finally blocks, context managers) still runs with effect
+                self.crash_at = None
+                self.log.pop()
+                raise KeyboardInterrupt()
             if mode == "mid" and partial is not None:
                 f, s = partial
-                self.inodes[f.ino] += s[: len(s) // 2]
+                f._put(s[: len(s) // 2])
             elif mode in ("drop", "half"):
                 for h in list(self.handles):
                     if h.closed or not any(c in h.mode for c in "wax"):
@@ -221,6 +236,53 @@ class CrashFS:
             return
         return self._real["fsync"](fd)
 
+    def os_open(self, path, flags, mode=0o777, *a, **k):
+        """os.open on a modelled path: O_CREAT / O_EXCL / O_TRUNC as documented; the descriptor is turned
+        into a file object by os.fdopen"""
+        if not self._mine(path):
+            return self._real["os_open"](path, flags, mode, *a, **k)
+        path = os.fspath(path)
+        if flags & (os.O_APPEND | os.O_RDWR):
+            raise Unsupported("os.open flags")
+        writing = bool(flags & os.O_WRONLY)
+        if writing:
+            self._op(("open", path, "os.open"))
+        if path not in self.dir:
+            if not flags & os.O_CREAT:
+                raise FileNotFoundError(path)
+            ino = -1 if self.frozen else self._create(path)
+            self.inodes.setdefault(-1, "")
+        else:
+            if flags & os.O_CREAT and flags & os.O_EXCL:
+                raise FileExistsError(path)
+            ino = self.dir[path]
+            if flags & os.O_TRUNC and writing and not self.frozen:
+                self.inodes[ino] = ""
+        f = _File(self, ino, path, "w" if writing else "r")
+        f.synced = 0 if flags & os.O_TRUNC else len(self.inodes[ino])
+        if writing:
+            self.handles.add(f)
+        self._fds[f.fileno()] = f
+        return f.fileno()
+
+    def fdopen(self, fd, *a, **k):
+        if isinstance(fd, int) and fd in self._fds:
+            return self._fds[fd]
+        return self._real["fdopen"](fd, *a, **k)
+
+    def lstat(self, path, *a, **k):
+        if not self._mine(path):
+            return self._real["lstat"](path, *a, **k)
+        path = os.fspath(path)
+        if path not in self.dir:
+            raise FileNotFoundError(path)
+        return os.stat_result((0o100644, self.dir[path], 0, 1, 0, 0, len(self.inodes[self.dir[path]]), 0, 0, 0))
+
+    def stat(self, path, *a, **k):
+        if not self._mine(path):
+            return self._real["stat"](path, *a, **k)
+        return self.lstat(path)
+
     def _unsupported(self, name):
         real = self._real[name]
 
@@ -255,6 +317,7 @@ class CrashFS:
             "rename": os.rename, "remove": os.remove, "exists": osp.exists,
             "fsync": os.fsync, "link": os.link, "symlink": os.symlink,
             "truncate": os.truncate, "copyfile": shutil.copyfile, "os_open": os.open,
+            "fdopen": os.fdopen, "lstat": os.lstat, "stat": os.stat,
         }
         patches = [
             (builtins, "open", self.open), (io, "open", self.open),
@@ -265,7 +328,8 @@ class CrashFS:
             (os, "link", self._unsupported("link")),
             (os, "symlink", self._unsupported("symlink")),
             (os, "truncate", self._unsupported("truncate")),
-            (os, "open", self._unsupported("os_open")),
+            (os, "open", self.os_open), (os, "fdopen", self.fdopen),
+            (os, "lstat", self.lstat), (os, "stat", self.stat),
             (shutil, "copyfile", self._copy), (shutil, "copy", self._copy),
             (shutil, "copy2", self._copy), (shutil, "move", self.rename),
         ]
